@@ -134,4 +134,25 @@ PROPS = {
         floors=dict(quick=dict(distinct_nontrivial=2000, exhaustive_merges=8000, projections_compared=20000),
                     thorough=dict(distinct_nontrivial=50000, exhaustive_merges=8000)),
     ),
+
+    'C02': dict(
+        technique='ASan (vector annotations) + UBSan + LeakSanitizer on Decoder::decode over mutated frame histories, inputs in read-only guard-paged mappings, ownership snapshots re-read after input and decoder are released; libFuzzer in the thorough tier',
+        level_text='Exploration: histories of hostile byte strings (every truncation of ~55 canonical CMP/TECMP frames, every byte / 16-bit field of their first 96 bytes set to 17 hostile values, all 256 TECMP message types x 11 data types x sizes 28..52, structurally mutated generated frames, random bytes up to 64 KiB) are decoded on one decoder per history; inputs end at a PROT_NONE page and are read-only (an over-read or any write faults), every 4th input sits in an exact-size heap block (red zones); each returned packet is checked (non-null, payload object, <= 1 per 12 bytes), fully read, and re-read after the input is unmapped, more frames decoded and the decoder destroyed.',
+        level_note='Trusted: ASan/UBSan/LSan and the MMU. Red zones miss far overflows inside other live blocks; guard pages cover the input side exactly. Termination is observed (watchdog), not proved.',
+        stages=[dict(driver='drv_memsafe', flavour='asan')],
+        rule=('cases = deterministic canonical-frame mutations + TECMP sweep + seeded random histories of 1..40 frames; every decode call is one evaluation. distinct_nontrivial = distinct (frame family + mutation kinds, packets accepted (0,1,2,3+)) pairs and (family, mutated field) pairs.'),
+        assumptions=COMMON_ASSUME,
+        floors=dict(quick={'distinct_nontrivial': 3000, 'inputs_guard_paged_readonly': 50000, 'ownership_rechecks': 20000, 'tecmp_message_types_swept': 256, 'feat:c02_family_truncated': 49, 'feat:c02_family_field_mutated': 49},
+                    thorough={'distinct_nontrivial': 5000, 'tecmp_message_types_swept': 256}),
+    ),
+    'C03': dict(
+        technique='ASan (vector annotations) + UBSan on validators, constructors and every const accessor, plus an explicit pointer-range oracle on every reported view; three paths (class validator, decoder, message-level validator)',
+        level_text='Exploration: for each typed class, every buffer length 0..header+8 (and larger), every inner length field swept (8-bit fields exhaustively, 16-bit fields on a lattice in quick / exhaustively in thorough) on zero / ones / random backgrounds, every truncation of consistent payloads, and seeded semi-valid random buffers; accepted buffers are copied to an exact-size heap block that is freed before all accessors run; every (pointer, length) view must lie inside [getRawPayload(), +getLength()].',
+        level_note='Trusted: ASan and the range oracle in accessors.h. One-directional: rejected buffers are skipped (accept/reject split is reported).',
+        stages=[dict(driver='drv_memsafe', flavour='asan')],
+        rule=('cases = (class, buffer); every buffer is one evaluation run through three paths. Non-trivial = buffer accepted by the class validator; distinct = distinct (class, buffer content hash).'),
+        assumptions=COMMON_ASSUME,
+        floors=dict(quick={'distinct_nontrivial': 20000, 'accepted_can': 1000, 'accepted_canfd': 1000, 'accepted_lin': 1000, 'accepted_eth': 1000, 'accepted_analog': 1000, 'accepted_cm': 1000, 'accepted_if': 1000, 'feat:c03_classes': 7},
+                    thorough={'distinct_nontrivial': 200000, 'accepted_cm': 10000, 'accepted_if': 10000}),
+    ),
 }
